@@ -165,6 +165,8 @@ type spec struct {
 	hdr         http.Header // snapshot at commit
 	trailerKeys []string
 	body        []byte
+	connErr     bool // a write returned the injected conn error
+	asked       int // bytes the handler ASKED to write (every Write/WriteString/ReadFrom, whatever it returned)
 	explicitCL  int // -1 = none
 	feats       map[string]bool
 	insane      []string // reasons why the program is outside Sane
@@ -257,7 +259,8 @@ func bodiless(code int) bool { return code == 204 || code == 304 || (code >= 100
 // ---------------------------------------------------------------- running a program on the real code
 
 type opResult struct {
-	text string // result line without w=/tr=
+	text string // result line without w=/own=/tr=
+	own  string // owner fields after the op: <buffer id>:<len>/<bodyBuffer id>:<len>
 	w    []int
 	tr   string
 }
@@ -434,6 +437,15 @@ func run(cfg caseCfg, ops []op, tr *track.Tracker, lg *nullLogger) *runOut {
 					} else {
 						n, err = res.WriteString(string(data))
 					}
+					sp.asked += len(data)
+					if errors.Is(err, track.ErrInjected) {
+						sp.connErr = true // the bytes of a write that died on the conn may or may not count: no verdict afterwards
+					}
+					if errors.Is(err, http.ErrContentLength) && !sp.connErr && sp.explicitCL >= 0 && len(sp.body)+len(data) <= sp.explicitCL {
+						// the handler stayed within its declaration: refusing the write is wrong whatever else is true
+						out.wnErr = append(out.wnErr, fmt.Sprintf("%s of %d bytes refused with ErrContentLength although %d accepted + %d <= Content-Length %d",
+							o.kind, len(data), len(sp.body), len(data), sp.explicitCL))
+					}
 					if err == nil {
 						sp.body = append(sp.body, data...)
 						if n != len(data) {
@@ -473,6 +485,10 @@ func run(cfg caseCfg, ops []op, tr *track.Tracker, lg *nullLogger) *runOut {
 						}
 					}
 					n, err := res.ReadFrom(rd)
+					sp.asked += o.n
+					if errors.Is(err, track.ErrInjected) {
+						sp.connErr = true
+					}
 					if f != nil {
 						f.Close()
 						os.Remove(f.Name())
@@ -488,7 +504,14 @@ func run(cfg caseCfg, ops []op, tr *track.Tracker, lg *nullLogger) *runOut {
 			}()
 			b, bb := res.VerifOwned()
 			tr.CheckOwners(track.Owner{Name: "Response.buffer", Handle: b}, track.Owner{Name: "Response.bodyBuffer", Handle: bb})
-			out.res = append(out.res, opResult{text: text, w: take(o.kind == "RF"), tr: tr.TakeTrace()})
+			own := func(h *[]byte) string {
+				if h == nil {
+					return "-"
+				}
+				id, _ := tr.IDOf(h)
+				return fmt.Sprintf("%d:%d", id, len(*h))
+			}
+			out.res = append(out.res, opResult{text: text, w: take(o.kind == "RF"), tr: tr.TakeTrace(), own: own(b) + "/" + own(bb)})
 		}
 		b, bb := res.VerifOwned()
 		if b != nil {
@@ -554,8 +577,28 @@ func hexOrHash(b []byte) string {
 	return fmt.Sprintf("%d:%016x", len(b), lp.Fnv(b))
 }
 
-// report canonicalises the wire: status line, sorted header lines (Date pinned unless the handler set it),
-// hash of the framed body up to the last-chunk line, sorted trailer lines.
+// sortByName orders field lines by field name only, keeping the wire order of the lines of one name (Go's map
+// order is random across names; the order of the values of ONE name is the handler's and is compared).
+func sortByName(lines [][]byte) []string {
+	type kv struct{ k, v string }
+	var xs []kv
+	for _, l := range lines {
+		k := l
+		if i := bytes.IndexByte(l, ':'); i >= 0 {
+			k = l[:i]
+		}
+		xs = append(xs, kv{lp.Hex(k), hexOrHash(l)})
+	}
+	sort.SliceStable(xs, func(i, j int) bool { return xs[i].k < xs[j].k })
+	out := make([]string, len(xs))
+	for i, x := range xs {
+		out[i] = x.v
+	}
+	return out
+}
+
+// report canonicalises the wire: status line, header lines sorted by field name (Date pinned unless the handler
+// set it), hash of the framed body up to the last-chunk line, trailer lines sorted by field name.
 func report(wire []byte) string {
 	head, rest := wire, []byte(nil)
 	if i := bytes.Index(wire, []byte("\r\n\r\n")); i >= 0 {
@@ -563,7 +606,7 @@ func report(wire []byte) string {
 	}
 	lines := bytes.Split(head, []byte("\r\n"))
 	first := lines[0]
-	var others []string
+	var raw [][]byte
 	chunked := false
 	for _, l := range lines[1:] {
 		if bytes.HasPrefix(l, []byte("Date: ")) && len(l) == 6+len(datePlaceholder) && bytes.HasSuffix(l, []byte(" GMT")) {
@@ -572,9 +615,9 @@ func report(wire []byte) string {
 		if string(l) == "Transfer-Encoding: chunked" {
 			chunked = true
 		}
-		others = append(others, hexOrHash(l))
+		raw = append(raw, l)
 	}
-	sort.Strings(others)
+	others := sortByName(raw)
 	trl := "-"
 	if chunked {
 		// trailer block = what follows the LAST "\r\n0\r\n" (or a leading "0\r\n")
@@ -587,12 +630,7 @@ func report(wire []byte) string {
 		if cut >= 0 {
 			tl := bytes.Split(rest[cut:], []byte("\r\n"))
 			rest = rest[:cut]
-			var ts []string
-			for _, l := range tl {
-				ts = append(ts, hexOrHash(l))
-			}
-			sort.Strings(ts)
-			trl = strings.Join(ts, ",")
+			trl = strings.Join(sortByName(tl), ",")
 		}
 	}
 	hs := strings.Join(others, ",")
@@ -811,7 +849,7 @@ func execResp(e *lp.Exec, cline string, lines []string, tr *track.Tracker, lg *n
 		} else if r.text == "dead" || r.text == "done" || strings.HasSuffix(r.text, " dead") || strings.HasSuffix(r.text, "panic") {
 			e.P("%s", r.text)
 		} else {
-			e.P("%s w=%s tr=%s", r.text, wString(r.w), r.tr)
+			e.P("%s w=%s own=%s tr=%s", r.text, wString(r.w), r.own, r.tr)
 			if len(r.w) > 0 {
 				nontrivial = true
 			}
@@ -854,7 +892,9 @@ func execResp(e *lp.Exec, cline string, lines []string, tr *track.Tracker, lg *n
 		sp.feats["flush-identity-nocl"] = true
 	}
 	sp.insaneIf(bodiless(sp.status) && len(sp.body) > 0, "body-on-bodiless-status")
-	sp.insaneIf(sp.explicitCL >= 0 && len(sp.body) != sp.explicitCL && !bodiless(sp.status), "content-length-mismatch")
+	// judged on what the handler ASKED to write: a write the implementation refused or lost does not make the
+	// handler wrong (a body shorter than a correctly declared Content-Length is then the decoder's finding)
+	sp.insaneIf(sp.explicitCL >= 0 && sp.asked != sp.explicitCL && !bodiless(sp.status), "content-length-mismatch")
 	sane := len(sp.insane) == 0
 	if sane {
 		e.Count("cases", "sane")
